@@ -57,7 +57,7 @@ func c17Api(a []string) string {
 		body["auto_stop_pull_after_no_out_ms"] = sint(a[1])
 	}
 	bs, _ := json.Marshal(body)
-	cl := &http.Client{Timeout: 3 * time.Second}
+	cl := &http.Client{Timeout: 30 * time.Second}
 	resp, err := cl.Post("http://"+c17ApiAddr+"/api/ctrl/start_relay_pull", "application/json", bytes.NewReader(bs))
 	if err != nil {
 		return "http-error"
